@@ -84,7 +84,7 @@ pub(crate) fn spec_smooth_tendency(a: i64, b: i64, c: i64) -> i64 {
 // A line kernel that stops calling tendency_i32 / tendency_i16 is no longer abstracted and is then compared
 // with an arbitrary function, i.e. fails.
 // ------------------------------------------------------------------------------------------------
-const MEMO: usize = 24;
+const MEMO: usize = 16;
 static mut MEMO_KEY: [(i64, i64, i64); MEMO] = [(0, 0, 0); MEMO];
 static mut MEMO_VAL: [i64; MEMO] = [0; MEMO];
 static mut MEMO_LEN: usize = 0;
@@ -486,32 +486,54 @@ fn sq_v_16<const W: usize, const H: usize, const N: usize>() {
     kani::cover!(!ok || H == 1);
 }
 
+// One harness per geometry (a single harness over several geometries is super-linearly slower).
 macro_rules! sq_harness {
-    ($name:ident, $f:ident, [$(($w:literal, $h:literal)),+]) => {
+    ($name:ident, $f:ident, $w:literal, $h:literal) => {
         #[kani::proof]
         #[kani::unwind(10)]
         #[kani::stub(tendency_i32, stub_tendency_i32)]
         #[kani::stub(tendency_i16, stub_tendency_i16)]
         fn $name() {
             unsafe { ABSTRACT = true };
-            $(
-                unsafe { MEMO_LEN = 0 }; // every geometry is an independent proof with a fresh abstract function
-                $f::<$w, $h, { ($w + 1) * $h }>();
-            )+
+            $f::<$w, $h, { ($w + 1) * $h }>();
         }
     };
 }
-// horizontal: (width, height).  Rows are processed independently; two rows (stride = width + 1) for widths 1-2.
-sq_harness!(sq_h_roundtrip_w1to4, sq_h_roundtrip, [(1, 2), (2, 2), (3, 1), (4, 1)]);
-sq_harness!(sq_h_roundtrip_w5to6, sq_h_roundtrip, [(5, 1), (6, 1)]);
-sq_harness!(sq_h_spec_w1to4, sq_h_spec, [(1, 2), (2, 2), (3, 1), (4, 1)]);
-sq_harness!(sq_h_spec_w5to6, sq_h_spec, [(5, 1), (6, 1)]);
-sq_harness!(sq_h_16_w1to4, sq_h_16, [(1, 2), (2, 2), (3, 1), (4, 1)]);
-sq_harness!(sq_h_16_w5to6, sq_h_16, [(5, 1), (6, 1)]);
-// vertical: columns are processed independently; two columns for heights 1-2.
-sq_harness!(sq_v_roundtrip_h1to4, sq_v_roundtrip, [(2, 1), (2, 2), (1, 3), (1, 4)]);
-sq_harness!(sq_v_roundtrip_h5to6, sq_v_roundtrip, [(1, 5), (1, 6)]);
-sq_harness!(sq_v_spec_h1to4, sq_v_spec, [(2, 1), (2, 2), (1, 3), (1, 4)]);
-sq_harness!(sq_v_spec_h5to6, sq_v_spec, [(1, 5), (1, 6)]);
-sq_harness!(sq_v_16_h1to4, sq_v_16, [(2, 1), (2, 2), (1, 3), (1, 4)]);
-sq_harness!(sq_v_16_h5to6, sq_v_16, [(1, 5), (1, 6)]);
+// horizontal: rows are processed independently; two rows (stride = width + 1) for widths 1-2, one row above.
+sq_harness!(sq_h_roundtrip_1, sq_h_roundtrip, 1, 2);
+sq_harness!(sq_h_roundtrip_2, sq_h_roundtrip, 2, 2);
+sq_harness!(sq_h_roundtrip_3, sq_h_roundtrip, 3, 1);
+sq_harness!(sq_h_roundtrip_4, sq_h_roundtrip, 4, 1);
+sq_harness!(sq_h_roundtrip_5, sq_h_roundtrip, 5, 1);
+sq_harness!(sq_h_roundtrip_6, sq_h_roundtrip, 6, 1);
+sq_harness!(sq_h_spec_1, sq_h_spec, 1, 2);
+sq_harness!(sq_h_spec_2, sq_h_spec, 2, 2);
+sq_harness!(sq_h_spec_3, sq_h_spec, 3, 1);
+sq_harness!(sq_h_spec_4, sq_h_spec, 4, 1);
+sq_harness!(sq_h_spec_5, sq_h_spec, 5, 1);
+sq_harness!(sq_h_spec_6, sq_h_spec, 6, 1);
+sq_harness!(sq_h_16_1, sq_h_16, 1, 2);
+sq_harness!(sq_h_16_2, sq_h_16, 2, 2);
+sq_harness!(sq_h_16_3, sq_h_16, 3, 1);
+sq_harness!(sq_h_16_4, sq_h_16, 4, 1);
+sq_harness!(sq_h_16_5, sq_h_16, 5, 1);
+sq_harness!(sq_h_16_6, sq_h_16, 6, 1);
+// vertical: columns are processed independently; two columns for heights 1-2, one column above.
+sq_harness!(sq_v_roundtrip_1, sq_v_roundtrip, 2, 1);
+sq_harness!(sq_v_roundtrip_2, sq_v_roundtrip, 2, 2);
+sq_harness!(sq_v_roundtrip_3, sq_v_roundtrip, 1, 3);
+sq_harness!(sq_v_roundtrip_4, sq_v_roundtrip, 1, 4);
+sq_harness!(sq_v_roundtrip_5, sq_v_roundtrip, 1, 5);
+sq_harness!(sq_v_roundtrip_6, sq_v_roundtrip, 1, 6);
+sq_harness!(sq_v_spec_1, sq_v_spec, 2, 1);
+sq_harness!(sq_v_spec_2, sq_v_spec, 2, 2);
+sq_harness!(sq_v_spec_3, sq_v_spec, 1, 3);
+sq_harness!(sq_v_spec_4, sq_v_spec, 1, 4);
+sq_harness!(sq_v_spec_5, sq_v_spec, 1, 5);
+sq_harness!(sq_v_spec_6, sq_v_spec, 1, 6);
+sq_harness!(sq_v_16_1, sq_v_16, 2, 1);
+sq_harness!(sq_v_16_2, sq_v_16, 2, 2);
+sq_harness!(sq_v_16_3, sq_v_16, 1, 3);
+sq_harness!(sq_v_16_4, sq_v_16, 1, 4);
+sq_harness!(sq_v_16_5, sq_v_16, 1, 5);
+sq_harness!(sq_v_16_6, sq_v_16, 1, 6);
